@@ -47,7 +47,10 @@ RULE = ("instances: every instruction class with a syntax of every configuration
         "integer operand, also inside nested constructor operands (shifts, addressing modes, immediates), takes 0, 1, -1, the largest and "
         "smallest value ppci encodes there (probed through 2^k, 2^k-1, -2^k) and a random one, for every sampled constructor combination "
         "(quick: all classes of arm/thumb/x86_64/riscv and a seed-rotated third of the others; thorough: all) + seeded random tuples; "
-        "thorough: every register of every register operand appears. The text is always str() of the LIVE object. An instance counts only "
+        "thorough: every register of every register operand appears; + a MUTATION pass: print, change every operand in place "
+        "(replace_register / assignment, nested operands on the nested object) to the values of another instance, print again: the text "
+        "must be that of a fresh instance with the new operands, printing twice must agree (quick 6, thorough 24 pairs per class x 2 "
+        "modes). The text is always str() of the LIVE object. An instance counts only "
         "if ppci can encode it directly. distinct = distinct (configuration, printed text); non-trivial = instance with a negative "
         "integer, a label, a nested constructor operand, more than one derivation, or a failing outcome")
 TRUSTED = [
@@ -238,6 +241,7 @@ class Plan:
         self.all_regs = thorough
         self.variant_base = 2 if thorough else 1     # systematic instances for base-ISA classes in variant configs
         self.parse_every = 1 if thorough else 3      # Lean parse enumeration for every k-th instance
+        self.mut_pairs = 24 if thorough else 6       # print -> mutate in place -> print sequences per class (x 2 modes)
 
 
 BOUND_FIXED = [0, 1, -1]
@@ -356,6 +360,94 @@ def class_instances(cfg, gen, cls, plan, rng, reduced, boundary=True):
     return out, fails
 
 
+def rebuild(obj):
+    """a FRESH instance with the operand values `obj` has now (read through the operand descriptors)"""
+    from ppci.arch.encoding import Constructor
+    args = []
+    for farg in obj.syntax.formal_arguments:
+        v = farg.__get__(obj)
+        if isinstance(v, Constructor):
+            v = rebuild(v)
+        elif isinstance(v, set):
+            v = type(v)(v)
+        args.append(v)
+    return type(obj)(*args)
+
+
+def mutate_to(top, obj, spec, mode):
+    """change the operands of `obj` IN PLACE to those of `spec` (same class): registers through
+    Instruction.replace_register (mode 'replace', what the register allocator's spill rewrite does) or by assignment,
+    immediates / labels / whole sub-constructors by assignment on the object that owns the operand"""
+    from ppci.arch.registers import Register
+    for farg, a in zip(obj.syntax.formal_arguments, spec.args):
+        cur = farg.__get__(obj)
+        if isinstance(a, E.Spec):
+            if type(cur) is a.cls:
+                mutate_to(top, cur, a, mode)
+            else:
+                setattr(obj, farg._name, a.build())
+        elif isinstance(a, Register):
+            if cur is a:
+                continue
+            if mode == "replace":
+                top.replace_register(cur, a)
+            else:
+                setattr(obj, farg._name, a)
+        elif isinstance(a, set):
+            setattr(obj, farg._name, type(a)(a))
+        else:
+            if cur != a:
+                setattr(obj, farg._name, a)
+
+
+def mutation_pass(ctx, cfg, cls, insts, ties, limit):
+    """print -> mutate in place -> print: the second text must be the text of a fresh instance with the new
+    operands (and so assemble to the mutated instance's encoding); printing twice must give the same text"""
+    pr = cfg.arch.asm_printer.print_instruction
+    name = cfg.name_of[cls]
+    by_sk = collections.OrderedDict()
+    for s in insts:
+        by_sk.setdefault(repr(s.skeleton(cfg)), []).append(s)
+    pairs = []
+    for group in by_sk.values():
+        for a, b in zip(group, group[1:] + group[:1]):
+            if a is not b:
+                pairs.append((a, b))
+    # nested-constructor classes first, then spread over the constructor combinations
+    step = max(1, len(pairs) // limit)
+    pairs = pairs[::step][:limit]
+    for a, b in pairs:
+        for mode in ("assign", "replace"):
+            try:
+                i = a.build()
+                s1 = pr(i)
+                s1b = pr(i)
+                mutate_to(i, i, b, mode)
+                s2 = pr(i)
+                s2b = pr(i)
+                fresh = rebuild(i)
+                want = pr(fresh)
+            except Exception as e:  # noqa  (an in-place change ppci refuses: not an instance)
+                ctx.count("mutation_not_applicable")
+                continue
+            ctx.count("eval_mutation")
+            case = {"config": cfg.key, "instance": spec_to_json(cfg, a), "mutate_to": spec_to_json(cfg, b), "mode": mode}
+            if s1b != s1 or s2b != s2:
+                ctx.fail(f"{cfg.key}:{name}:print-not-idempotent", f"{cfg.key}: {name} prints '{s1}' then '{s1b}' / '{s2}' then '{s2b}'", case)
+            if s2 != want:
+                detail = {}
+                try:
+                    detail["direct_of_mutated"] = E.direct_view(cfg.arch, rebuild(i))
+                    detail["assembled_stale_text"] = list(E.assemble(cfg.arch, s2))
+                except Exception as e:  # noqa
+                    detail["error"] = type(e).__name__
+                ctx.nontrivial((cfg.key, "mut", s1, s2))
+                ctx.fail(f"{cfg.key}:{name}:stale-text-after-mutation",
+                         f"{cfg.key}: {name} printed '{s1}', operands changed in place ({mode}) to those of '{want}', but it still prints "
+                         f"'{s2}' (assembles to {detail.get('assembled_stale_text')}, the instance encodes to {detail.get('direct_of_mutated')})",
+                         case, first_text=s1, second_text=s2, expected_text=want, **detail)
+
+
 LEXER_CORPUS = [
     "", " ", "mov r1, r2", "mov r1,r2", "sdivR0,R1", "bkpt2", "1.5", "1.", ".5", "1.5.2", "%10", "%2", "% 1", "%", "0x1F", "0x", "0xg",
     "0b101", "0b2", "0b", "$ff", "$", "12abc", "abc12", "a_b", "_", "__x", "0", "00", "007", "1-2", "--5", "-0x10", "a:b", "r1:r0",
@@ -461,6 +553,8 @@ def _check(ctx, cfgs, plan, ties, use_driver):
                 r = run_one(cfg, cls, s, "generated")
                 if r is not None:
                     c["instances"] += 1
+            if not reduced:
+                mutation_pass(ctx, cfg, cls, insts, ties, plan.mut_pairs)
         per_cfg[key] = dict(c)
         ctx.count("classes", c["classes"])
     ctx.extra_cov["per_configuration"] = per_cfg
@@ -599,8 +693,12 @@ def replay(ctx, rp):
         try:
             cfg = cfgs[case["config"]]
             spec = spec_from_json(cfg, case["instance"])
+            other = spec_from_json(cfg, case["mutate_to"]) if "mutate_to" in case else None
         except Exception as e:  # noqa  (the class of the replay does not exist in this tree)
             ctx.note(f"replay input is not constructible on this tree ({type(e).__name__}: {e})")
+            return
+        if other is not None:
+            mutation_pass(ctx, cfg, spec.cls, [spec, other], ties, 2)
             return
         res = E.evaluate(cfg, spec, ties)
         ctx.count("eval_property")
